@@ -1,0 +1,55 @@
+// Licensed to Elasticsearch B.V. under one or more contributor
+// license agreements. See the NOTICE file distributed with
+// this work for additional information regarding copyright
+// ownership. Elasticsearch B.V. licenses this file to you under
+// the Apache License, Version 2.0 (the "License"); you may
+// not use this file except in compliance with the License.
+// You may obtain a copy of the License at
+//
+//     http://www.apache.org/licenses/LICENSE-2.0
+//
+// Unless required by applicable law or agreed to in writing,
+// software distributed under the License is distributed on an
+// "AS IS" BASIS, WITHOUT WARRANTIES OR CONDITIONS OF ANY
+// KIND, either express or implied.  See the License for the
+// specific language governing permissions and limitations
+// under the License.
+
+//go:build verif
+// +build verif
+
+package seccomp
+
+import (
+	"encoding/binary"
+
+	"github.com/elastic/go-seccomp-bpf/arch"
+)
+
+// Verification hooks (build tag "verif" only). They give an external test
+// harness access to unexported state; nothing in the package uses them.
+
+// VerifSetArch sets the unexported target architecture of the policy, so
+// that every syscall table can be compiled on one host.
+func VerifSetArch(p *Policy, a *arch.Info) { p.arch = a }
+
+// VerifSetByteOrder overrides the byte order used to select the high and low
+// words of the syscall arguments and returns the previous one.
+func VerifSetByteOrder(bo binary.ByteOrder) binary.ByteOrder {
+	old := nativeEndian
+	nativeEndian = bo
+	return old
+}
+
+// VerifByteOrder returns the byte order currently in effect.
+func VerifByteOrder() binary.ByteOrder { return nativeEndian }
+
+// Unexported constants, exported for comparison with the kernel's UAPI values.
+const (
+	VerifErrnoEPERM           = errnoEPERM
+	VerifErrnoENOSYS          = errnoENOSYS
+	VerifPrSetNoNewPrivs      = prSetNoNewPrivs
+	VerifSeccompSetModeStrict = seccompSetModeStrict
+	VerifSeccompSetModeFilter = seccompSetModeFilter
+	VerifX32SyscallMask       = x32SyscallMask
+)
